@@ -245,6 +245,37 @@ def layout_cases():
         yield f"try:\n    pass\nexcept E({n})as e:\n    pass\n"
 
 
+ODD_BLANKS = ["\x0b", "\x1c", "\x1d", "\x1e", "\x1f", "\x85", "\xa0", "\u1680", "\u2000", "\u2003", "\u200a", "\u2028", "\u2029", "\u202f", "\u205f", "\u3000", "\ufeff", "\u200b", "\x7f", "\x08", "\x1b"]
+ODD_WORD_CHARS = ["\u00b2", "\u00b9", "\u00bd", "\u0661", "\u0662\u0663", "\u2082", "\u2460", "\u0966", "\uff11", "\u00b3x", "x\u00b2", "a\u0661", "_\u00bd", "\u2160\u00b2", "\u3007\u00b2", "\u00aa\u00b2"]
+WORD_SLOTS = ["x = {}\n", "{} = 1\n", "x.{}\n", "f({}=1)\n", "def f({}): pass\n", "def {}(): pass\n", "class {}: pass\n", "import {}\n", "import a.{} as b\n", "from {} import a\n", "from a import {}\n", "global {}\n",
+              "for {} in y: pass\n", "lambda {}: 0\n", "with a as {}: pass\n", "match v:\n    case {}: pass\n", "match v:\n    case A({}=1): pass\n", "x = 1 {}\n", "x = {}1\n", "x = 1{}\n", "try:\n    pass\nexcept E as {}:\n    pass\n",
+              "x = f'{{{}}}'\n", "x = f'{{a!{}}}'\n", "def f[{}](): pass\n", "type {} = int\n", "x = [{} for a in b]\n", "x = (a := {})\n", "@{}\ndef f(): pass\n", "del {}\n", "nonlocal {}\n"]
+
+
+def lexical_cases():
+    """what the token-level enumeration cannot hold, because CPython's own tokenizer already refuses it: (1) characters that are white space
+    for str.isspace but not for Python, between and inside tokens; (2) runs of word characters that are no identifiers (superscripts,
+    non-ASCII digits), in every position a name can take; (3) a quote left open on its line and closed on a later one; (4) f-string fields
+    whose colon or exclamation mark is not where the field syntax wants it (a lambda anywhere at the level of the field, blanks after '!')"""
+    for ch in ODD_BLANKS:
+        for t in ("a ={}1\n", "a{}= 1\n", "a = 1{}\n", "{}a = 1\n", "a = (1,{}2)\n", "if a:{}\n    b\n", "if a:\n    b{}\n", "if a:\n{}    b\n", "if a:\n    {}b\n", "x = a{}.b\n", "f({})\n", "a = 1 {} + 2\n", "import{}a\n", "x = 1{}if a else 2\n",
+                  "def f():{}return 1\n", "x = [1,\n{}2]\n", "x = f'{{a{}}}'\n", "x = f'{{a!r{}}}'\n", "a = 1\n{}\nb = 2\n", "a = 1 \\\n{}+ 2\n", "x = a{}b\n", "x = 'a'{}'b'\n", "{}\n", "a = 1;{}b = 2\n", "lambda{}: 0\n", "not{}a\n"):
+            yield t.format(ch)
+    for w in ODD_WORD_CHARS:
+        for t in WORD_SLOTS:
+            yield t.format(w)
+    for q in ("'", '"'):
+        for head in ("x = {q}abc", "x = {q}", "f({q}a, b", "x = a + {q}it", "x = b{q}abc", "x = r{q}ab\\", "x = {q}ab\\\\", "if {q}a", "x = [{q}a,", "x = ({q}a", "x = {q}a{q} {q}b", "x = u{q}a # c", "print({q}a{q} + {q}"):
+            for tail in ("{q}\n", "{q} + f(1)\n", "y = {q}d{q}\n", "{q}, 2)\n", "    {q}\n", "b{q}\n", "{q}]\n", "# {q}\n{q}\n", "\n{q}\n", "y = 1\nz = {q}\n", "{q}{q}{q}\n", "{q}; z = 1\n", "pass\n{q}k{q} {q}\n"):
+                yield (head + "\n" + tail).format(q=q)
+    for field in ("{x! r}", "{x!  s}", "{x !r}", "{x!\tr}", "{x! r:>3}", "{x = ! r}", "{x!\\\nr}", "{x!}", "{x! }", "{x!r !s}", "{x!rs}", "{x! ra}", "{!r}", "{x!r:}", "{x !r :}",
+                  "{lambda x:{1}}", "{1,lambda y:{y}}", "{lambda :{1}}", "{x if y else lambda :{1}}", "{lambda x:{1}!r}", "{lambda x:{1}:{2}}", "{a or lambda:{b}}", "{not lambda:{b}}", "{-1, lambda:{b}{c}}", "{*a, lambda:{b}}",
+                  "{ lambda:{b}}", "{\\\nlambda x:{1}}", "{#c\nlambda x:{1}}", "{a if lambda:{b} else c}", "{lambda a=(1):{a}}", "{lambda *a, **k:{a}}", "{x:=lambda:{1}}", "{await lambda:{1}}", "{yield lambda:{1}}",
+                  "{lambda: (yield)}", "{a, b = 1}", "{a; b}", "{a:{b:{c:{d}}}}", "{a!r!s}", "{a:!r}", "{a=!r=}", "{a==}", "{a = = }", "{}", "{ }", "{!}", "{:}", "{=}", "{a b}", "{a,,}", "{a:{}}", "{a:{b!}}", "{a:{b c}}"):
+        for pre, post in (("f'", "'"), ("f'''", "'''"), ("rf\"", "\""), ("x = f'a", "b' 'c'"), ("f'{z}", "{z}'"), ("print(f\"\"\"", "\"\"\")"), ("f'{f\"", "\"}'")):
+            yield pre + field + post + "\n"
+
+
 def run_shard(shard):
     acc = Acc()
     if "replay" in shard:
@@ -283,6 +314,8 @@ def run_shard(shard):
     elif kind == "layout":
         for s in layout_cases():
             check_case(acc, s, "exec", "layout")
+        for s in lexical_cases():
+            check_case(acc, s, "exec", "lexical")
     elif kind == "corpus":
         stmts = []
         for path in shard["files"]:
